@@ -95,8 +95,10 @@ impl MpcSpec {
 static RUN_COUNTER: AtomicU64 = AtomicU64::new(0);
 
 pub fn scratch_root() -> PathBuf {
-    let base = std::env::var("POLYSIM_SCRATCH").unwrap_or_else(|_| "/verif/out/tmp".to_string());
-    PathBuf::from(base)
+    match std::env::var("POLYSIM_SCRATCH") {
+        Ok(b) => PathBuf::from(b),
+        Err(_) => crate::framework::verif_root().join("out").join("tmp"),
+    }
 }
 
 pub struct MpcTask {
